@@ -307,6 +307,7 @@ type response struct {
 // Server is one job-server process with its own scratch directory. Not safe
 // for concurrent use: each worker goroutine owns one.
 type Server struct {
+	Primed int
 	hr     string
 	Dir    string
 	cmd    *exec.Cmd
@@ -352,7 +353,22 @@ func (s *Server) start() error {
 		return err
 	}
 	s.cmd, s.in, s.out = cmd, in, bufio.NewReaderSize(out, 1<<20)
+	// every server process first serves a run that sets whatever can be set - each HR_* variable, the global
+	// flags, the flags of reg - to values no case uses: what one invocation was given must not reach the next
+	// one of the same process, and every case that follows is compared with an oracle that knows nothing of it
+	b, _ := json.Marshal(primingJob)
+	if _, err := in.Write(append(b, '\n')); err == nil {
+		if _, err := s.out.ReadBytes('\n'); err == nil {
+			s.Primed++
+		}
+	}
 	return nil
+}
+
+var primingJob = job{
+	Args: []string{"--maxdepth", "2", "--date-format", "02.01.2006", "-b", "01.01.2001", "-e", "02.01.2001", "--today", "03.01.2001", "--no-color=false",
+		"reg", "--no-totals", "--totals-only", "--shorten", "--csv", "-g", "--internal-template-name", "left-aligned", "-s", "primed-element", "-f", "primed-food"},
+	Env: map[string]string{"HR_MAXDEPTH": "3", "HR_DATE_FORMAT": "Jan _2 06", "HR_DATABASE": "verif-primed-food.yaml", "HR_LOGFILE": "verif-primed-log.yaml", "HR_CONFIG": "verif-primed.conf"},
 }
 
 func (s *Server) Close() {
@@ -497,6 +513,14 @@ func (p *Pool) Close() {
 	for _, s := range p.Servers {
 		s.Close()
 	}
+}
+
+// Primed is the number of priming runs served (one per server process started).
+func (p *Pool) Primed() (n int) {
+	for _, s := range p.Servers {
+		n += s.Primed
+	}
+	return
 }
 
 func (p *Pool) Stats() (jobs, deaths int) {
